@@ -58,6 +58,14 @@ fn main() {
         "envprobe" => {
             envprobe::main();
         },
+        "c02-unpriv" => {
+            let tier = match args.get(2).map(|s| s.as_str()) {
+                Some("thorough") => Tier::Thorough,
+                _ => Tier::Quick,
+            };
+            install_panic_hook();
+            props::c02::unprivileged_worker(tier, args.get(3).and_then(|s| s.parse().ok()).unwrap_or(0));
+        },
         "replay" => {
             let file = args.get(2).cloned().unwrap_or_default();
             let v: Value = match std::fs::read_to_string(&file).ok().and_then(|s| serde_json::from_str(&s).ok()) {
